@@ -177,7 +177,7 @@ def classify(entry, src, rc, out, secs, timed_out):
 def run_harness(crate, tdir, entry, src):
     name = entry["harness"]
     full = f"{entry['module']}::{name}"
-    cmd = ["cargo", "kani", "--exact", "--harness", full, "--target-dir", tdir, "--output-format", "terse",
+    cmd = ["/usr/bin/time", "-f", "MAXRSS_KB=%M", "cargo", "kani", "--exact", "--harness", full, "--target-dir", tdir, "--output-format", "terse",
            "-Z", "stubbing", "-Z", "function-contracts"]
     for f in entry.get("flags", []):
         cmd.append(f)
@@ -193,13 +193,15 @@ def run_harness(crate, tdir, entry, src):
         env["RUSTFLAGS"] = " ".join(f"--cfg {c}" for c in rustflags)
     rc, out, secs, to = run(cmd, cwd=crate, timeout=entry.get("timeout", 300), mem_gb=entry.get("mem_gb", 6) + 2, env=env)
     r = classify(entry, src, rc, out, secs, to)
+    m = re.search(r"MAXRSS_KB=(\d+)", out)
+    r["max_rss_gb"] = round(int(m.group(1)) / 1e6, 2) if m else None
     r["wall_s"] = round(secs, 2)
     r["cmd"] = " ".join(cmd)
     shutil.rmtree(tdir, ignore_errors=True)
     return r
 
 
-def run_all(scratch, entries, jobs=12, mem_budget_gb=48, log=print):
+def run_all(scratch, entries, jobs=14, mem_budget_gb=54, log=print):
     """entries: registry records.  Returns {harness: result}; uses the content-addressed cache."""
     srcs = harness_sources()
     rh = repo_hash()
@@ -245,7 +247,7 @@ def run_all(scratch, entries, jobs=12, mem_budget_gb=48, log=print):
         if not any(v == "undecided" for v in r["obligations"].values()):
             cache_put(key, r)
         st = "ok" if all(v == "discharged" for v in r["obligations"].values()) else ("UNDECIDED " + r.get("reason", "") if any(v == "undecided" for v in r["obligations"].values()) else "FAILED " + r.get("reason", "")[:200])
-        log(f"  [kani] {e['harness']:<40} {r['wall_s']:>7.1f}s  {st}")
+        log(f"  [kani] {e['harness']:<40} {r['wall_s']:>7.1f}s {str(r.get('max_rss_gb')) + 'GB':>8}  {st}")
         return e["harness"], r
 
     todo.sort(key=lambda t: -t[0].get("timeout", 300))
